@@ -21,6 +21,9 @@ Classes (DESIGN section 4):
   dead    statements (simple and compound) that follow a return / break /
           continue in the same suite: unreachable code that must not change
           where the terminator leaves to
+  chains  long flat and/or chains (3-7 operands of decisions, logged values and
+          names) as tests of if/while, assigned and returned values: every
+          short-circuit position is a decision path
   forms   the less common spellings of supported statements: for-targets that
           are tuples / starred / nested / subscripts / attributes (with calls
           in the target), chained and destructuring assignments, subscript and
@@ -49,6 +52,7 @@ class Cfg:
         self.objs = False
         self.dead_code = False
         self.forms = False
+        self.chains = False
         self.__dict__.update(kw)
 
 
@@ -62,6 +66,7 @@ CLASSES = {
     "boolnest": Cfg(nested_boolop=True),
     "dead": Cfg(dead_code=True),
     "forms": Cfg(forms=True),
+    "chains": Cfg(chains=True, maxdepth=2, maxstmts=3),
 }
 
 
@@ -149,16 +154,30 @@ class PG:
 
     def rootexpr(self):
         """value of an assignment / return: and/or allowed at the root."""
-        if self.r.random() < 0.3:
+        if self.r.random() < (0.7 if self.c.chains else 0.3):
             op = self.r.choice([" and ", " or "])
-            n = self.r.choice([2, 2, 3])
+            n = self.r.choice([2, 2, 3, 3, 4, 5, 6, 7] if self.c.chains else [2, 2, 3, 4])
+            if self.c.chains:
+                return op.join(self.chain_atom() for _ in range(n))
             if self.c.nested_boolop:
                 return op.join(self.expr(1) for _ in range(n))
             return op.join(self.atom() for _ in range(n))
         return self.expr()
 
+    def chain_atom(self):
+        """operand of a long flat and/or: a decision, a logged value or a name"""
+        c = self.r.random()
+        if c < 0.5:
+            return f"d({self.uid()})"
+        if c < 0.8:
+            return f"ext({self.uid()}, {self.r.choice(self.names() + ['0', '1', '2'])})"
+        return self.r.choice(self.names())
+
     def test(self):
         t = self.c.tests
+        if self.c.chains and self.r.random() < 0.6:
+            op = self.r.choice([" and ", " or "])
+            return op.join(self.chain_atom() for _ in range(self.r.choice([3, 4, 4, 5, 6, 7])))
         if t == "oracle":
             if self.r.random() < 0.7:
                 return f"d({self.uid()})"
@@ -191,10 +210,13 @@ class PG:
         if c < 0.75:
             return f"{self.expr(1)} {self.r.choice(['<', '==', '!=', '>='])} {self.expr(1)}"
         op = self.r.choice([" and ", " or "])
-        return op.join(self.atom() for _ in range(self.r.choice([2, 3])))
+        return op.join(self.atom() for _ in range(self.r.choice([2, 3, 4])))
 
     def looptest(self):
         c = self.r.random()
+        if self.c.chains and c < 0.5:
+            op = self.r.choice([" and ", " or "])
+            return op.join([f"d({self.uid()})"] + [self.chain_atom() for _ in range(self.r.choice([2, 3, 4, 5]))])
         if self.c.tests == "oracle":
             return f"d({self.uid()})"
         if c < 0.5:
